@@ -95,6 +95,17 @@ pub fn curated() -> Vec<(&'static str, Spec, bool)> {
     add("end_anchor", true, vec![r("ab$"), r("[ab]+").prio(1)]);
     add("word_boundary", true, vec![r(r"if(?-u:\b)"), r("[a-z]+").prio(1), s(" +")]);
     add("half_word", true, vec![r(r"a+(?-u:\b{end-half})"), r("[a-z0-9]+").prio(1), s(" ")]);
+    // a look-ahead pattern and a longer pattern that continues with the very byte that satisfies
+    // the assertion (states that are both early- and late-accepting)
+    add("la_cont_wb", true, vec![r(r"x(?-u:\b)"), t("x-"), r("[a-z]+").prio(1)]);
+    add("la_cont_eol", true, vec![r("(?m:end$)"), t("end\n"), r("[a-z]+").prio(1), t("\n")]);
+    add("la_cont_let", true, vec![r(r"let(?-u:\b)"), t("let "), r("[a-z]+").prio(1), s(" ")]);
+    add("la_cont_half", true, vec![r(r"a+(?-u:\b{end-half})"), r("a+-"), r("[a-z]+").prio(1)]);
+    // skips recognised by a late-accept state (the skip ends in a look-ahead assertion)
+    add("skip_la_eol", true, vec![s("//[^\n]*(?m:$)").greedy(), r("[a-z]+"), t("\n"), t("/")]);
+    add("skip_la_end", true, vec![s("#[a-z]*$"), r("[a-z]+"), t("#").prio(1)]);
+    add("skip_la_wb", true, vec![s(r" +(?-u:\b)"), r("[a-z]+"), t(" ").prio(1)]);
+    add("skip_la_bytes", false, vec![s("//[^\n]*(?m:$)").greedy(), r("[a-z]+"), t("\n")]);
     // ---- generator shortcuts
     add("sc_two_edges", true, vec![r("a[bc]"), r("a[de]x")]);
     add("sc_three_edges", true, vec![r("ab"), r("ac"), r("ad"), r("ae")]);
@@ -106,6 +117,8 @@ pub fn curated() -> Vec<(&'static str, Spec, bool)> {
     add("sc_long_loop", true, vec![r("x[a-z]*;"), r("[0-9]+")]);
     add("sc_late_mixed", true, vec![r("ab|abc*d"), r("a")]);
     add("sc_root_reenter", true, vec![r("(ab)+"), t("a")]);
+    add("sc_root_table", true, vec![r("(a(x|yq|zr))*c"), r("[0-9]")]);
+    add("sc_root_table2", true, vec![r(r#"(\\(n|x[0-9a-f]|u[0-9a-f][0-9a-f]))*""#), r("[0-9]")]);
     add("sc_skip_only", true, vec![s("a+"), s("b")]);
     add("sc_special_bytes", true, vec![r(r#"[!-/:-@\[-`{-~]+"#), r(r"[\x00-\x1f]+"), t("\x7f")]);
     add("sc_range_ends", true, vec![r(r"[\x00-/]x"), r(r"[\x{80}-\x{10FFFF}]y"), r("[0-9]z")]);
